@@ -93,7 +93,9 @@ class MathParser:
             else:
                 out = [defs.ActionToken(out[-1].pos)]
         else:
-            if self.parser.parms.math_displayed_simple:
+            # (an equation without its end is left as it is: error mark)
+            if (self.parser.parms.math_displayed_simple
+                        and end and type(end) is not defs.ParagraphToken):
                 txt = self.parser.get_text_direct(out).strip()
                 out = [defs.ActionToken(start_simple),
                         defs.SpaceToken(start_simple, '  ', pos_fix=True),
